@@ -299,6 +299,14 @@ class GeminiServerProtocol(asyncio.Protocol):
         """
         if not self.transport or self._response_sent:
             return
+
+        # Whatever a handler returned: read it before anything is committed, so
+        # that an object without these attributes still gets an answer (a 40)
+        status = getattr(response, "status", None)
+        meta = getattr(response, "meta", None)
+        payload = getattr(response, "body", None)
+        url = getattr(response, "url", None)
+
         self._response_sent = True
 
         if self.timeout_handle:
@@ -306,7 +314,7 @@ class GeminiServerProtocol(asyncio.Protocol):
             self.timeout_handle = None
 
         # Serialise first: nothing is written unless everything can be
-        header, body = _encode_response(response.status, response.meta, response.body)
+        header, body = _encode_response(status, meta, payload)
 
         # Calculate request duration
         duration_ms = 0.0
@@ -318,7 +326,7 @@ class GeminiServerProtocol(asyncio.Protocol):
             "request_completed",
             client_ip=self.peer_name[0] if self.peer_name else "unknown",
             status=int(header[:2]),
-            path=response.url or "unknown",
+            path=url or "unknown",
             body_size=len(body),
             duration_ms=round(duration_ms, 2),
         )
